@@ -333,8 +333,8 @@ def exec (sqrt : Rat → Rat) : DataCmd → List Arr → Except Err Arr
           .ok { dtype := .float, shape := a.shape,
                 cells := a.cells.map fun c =>
                   let c1 := Cell.sc (· - mn) c
-                  let c2 := Cell.sc (· * (s - e)) c1
-                  let c3 := Cell.divSc (mn - mx) c2
+                  let c2 := Cell.sc (· * (e - s)) c1
+                  let c3 := Cell.divSc (mx - mn) c2
                   Cell.sc (· + s) c3 }
       | _, _ => .ok { dtype := .float, shape := a.shape, cells := a.cells.map fun c => ⟨c.val, true⟩ }
   | .normalizeZScore tt ft start end_, [a] =>
